@@ -12,6 +12,8 @@ for name in sorted(n for n in os.listdir(root) if os.path.isdir(f"{root}/{n}")):
     needs = cut(meta.get("needs", "").replace("|", "/").replace("\n", " "), 150)
     r = res.get(name, {})
     caught = [f"{p}: {', '.join(v['buckets'][:2])}" for p, v in r.items() if isinstance(v, dict) and v.get("caught")]
+    if not caught and meta.get("neutralised_by"):
+        caught = [f"no longer a violation since fix {meta['neutralised_by']['commit']} (its demonstration passes with the change applied); caught by {meta['property']} before that fix"]
     rows.append(f"| {name} | {summ} | {needs} | {'; '.join(caught) or 'MISSED'} |")
 table = "| seeded change | what it does | what it needs to manifest | caught by (quick tier): first buckets |\n|---|---|---|---|\n" + "\n".join(rows)
 p = "/verif/DESIGN.md"
